@@ -12,6 +12,8 @@ PROP = {
     "coq_files": ["Exchange/PermTypes.v", "Gen/GenExchangePerms.v", "Gen/GenGovEndpoints.v", "Exchange/Perms.v",
                   "Exchange/GovGuards.v", "Proofs/PermsProofs.v", "Corr/CorrBase.v", "Corr/C11.v"],
     "rule": "matrix: every (endpoint, caller kind, subset of the seven permissions granted to the caller on market 1) is generated exactly once, each request otherwise valid so that the permission alone decides (every permitted combination is observed to succeed); a matrix/cancel/payment case is non-trivial always (distinct = distinct (endpoint|op, caller kind, subset)); a history (payments, MarketManagePermissions) is non-trivial when at least one of its requests was accepted; a governance-sweep message type is non-trivial when the same request is accepted for the authority (so the stranger's rejection is the guard's); distinct = distinct keys of these kinds",
+    "trusted_base": ["translate/goextract (go/parser + go/ast, std-lib only) and translate/gen_coq.py: the source-to-table translator that regenerates coq/Gen/GenExchangePerms.v and coq/Gen/GenGovEndpoints.v from the working tree on every run; trusted to report the guard statements it matches faithfully; unmatched shapes become Unrecognised rows (listed under generated_tables.tables.unrecognised) and break the table theorems",
+                     "the documented tables (endpoint -> permission, non-governance exceptions, accepted authority-function bodies) are hand transcriptions of x/exchange/spec/01_concepts.md, 03_messages.md, market.proto and the tx.proto field comments"],
     "assumptions": ["callers are well-formed bech32 addresses (ValidateBasic rejects others before the handler; the parse-failure branch of HasPermission is not exercised)",
                     "the signer of a message is the field the model treats as the caller: checked on every run through the codec's GetMsgV1Signers for all 79 message types used",
                     "transaction atomicity (state of a failed handler is discarded) is baseapp machinery; the harness additionally checks that rejected calls wrote nothing",
